@@ -4063,7 +4063,7 @@ static CDataObject *cast_to_integer_or_char(CTypeDescrObject *ct, PyObject *ob)
             return NULL;
         value = (unsigned char)res;
     }
-    else if (ct->ct_flags & CT_IS_BOOL) {
+    else if ((ct->ct_flags & CT_IS_BOOL) && !PyCFunction_Check(ob)) {
         int res = _my_PyObject_AsBool(ob);
         if (res < 0)
             return NULL;
